@@ -586,10 +586,15 @@ fn drive_seek(s: &mut dyn Seek, rng: &mut Rng) -> Vec<String> {
 
 // ---- Hasher
 
+/// `finish()` calls are not logged in the families that answer them with a plain `returns(value)`
+static LOG_FINISH: std::sync::atomic::AtomicBool = std::sync::atomic::AtomicBool::new(true);
+
 struct PlainHasher;
 impl std::hash::Hasher for PlainHasher {
     fn finish(&self) -> u64 {
-        log("finish()".into());
+        if LOG_FINISH.load(std::sync::atomic::Ordering::SeqCst) {
+            log("finish()".into());
+        }
         77
     }
     fn write(&mut self, bytes: &[u8]) {
@@ -1423,6 +1428,7 @@ const COVERED: &[(&str, &[&str])] = &[
     ("hasher", &["Hasher::finish", "Hasher::write", "Hasher::write_u8", "Hasher::write_u16", "Hasher::write_u32",
                  "Hasher::write_u64", "Hasher::write_u128", "Hasher::write_usize", "Hasher::write_i8", "Hasher::write_i16",
                  "Hasher::write_i32", "Hasher::write_i64", "Hasher::write_i128", "Hasher::write_isize"]),
+    ("hasher-returns", &["Hasher::finish", "Hasher::write", "Hasher::write_u32", "Hasher::write_u16"]),
     ("fmt", &["Display::fmt", "Debug::fmt"]),
     ("supertrait", &["Display::fmt", "Debug::fmt"]),
     ("write-ordered", &["Write::write", "Write::flush", "Write::write_all"]),
@@ -1512,6 +1518,44 @@ fn run_family(family: &str, use_mock: bool, partial: bool, seed: u64) -> Run {
             } else {
                 drive_hasher(&mut PlainHasher, &mut drive_rng)
             }
+        }
+        "hasher-returns" => {
+            // finish() answered by a cloneable value with an open-ended count: returns(v).at_least_times(n) serves
+            // every call, however many the upstream code makes
+            use std::hash::{Hash, Hasher};
+            LOG_FINISH.store(false, std::sync::atomic::Ordering::SeqCst);
+            let calls = drive_rng.range(2, 5);
+            let at_least = drive_rng.below(calls + 1);
+            fn go(h: &mut dyn Hasher, calls: usize, rng: &mut Rng) -> Vec<String> {
+                let mut out = vec![];
+                for i in 0..calls {
+                    (rng.next_u64() as u32, i as u16).hash(&mut Wrap(h));
+                    out.push(format!("finish -> {}", h.finish()));
+                }
+                out
+            }
+            struct Wrap<'a>(&'a mut dyn Hasher);
+            impl Hasher for Wrap<'_> {
+                fn finish(&self) -> u64 {
+                    self.0.finish()
+                }
+                fn write(&mut self, b: &[u8]) {
+                    self.0.write(b)
+                }
+            }
+            let out = if use_mock {
+                let mut u = mk(partial, (
+                    HasherMock::finish.some_call(matching!()).returns(77u64).at_least_times(at_least),
+                    HasherMock::write.each_call(matching!(_)).answers(&|_, bytes| log(format!("hwrite({bytes:?})"))),
+                ));
+                let mut out = go(&mut u, calls, &mut drive_rng);
+                finish_expect(u, true, &mut out);
+                out
+            } else {
+                go(&mut PlainHasher, calls, &mut drive_rng)
+            };
+            LOG_FINISH.store(true, std::sync::atomic::Ordering::SeqCst);
+            out
         }
         "fmt" => {
             if use_mock {
